@@ -498,5 +498,69 @@ func c15Run(r *evid.Run, tier string) {
 		}(s)
 	}
 	wg.Wait()
+	if tier == "thorough" || os.Getenv("VERIF_FUZZ") != "" {
+		c15Fuzz(r, dir)
+	}
 	r.Sample("pools", 1, map[string]any{"documents": c15Docs, "expressions": c15Exprs[:8]})
+}
+
+// c15Fuzz: coverage-guided stage (Go native fuzzing) on BuildExpr+Exec and the three readers,
+// bounded by execution counts, in a scratch module so that nothing is written into /verif.
+func c15Fuzz(r *evid.Run, dir string) {
+	repo := os.Getenv("VERIF_REPO")
+	if repo == "" {
+		repo = "/repo"
+	}
+	fdir := filepath.Join(dir, "fuzz")
+	os.MkdirAll(fdir, 0o755)
+	src, err := os.ReadFile(filepath.Join(evid.VerifDir, "fuzz", "fuzz_test.go.txt"))
+	if err != nil {
+		// VERIF_OUT runs: the template lives next to the binary's source tree
+		src, err = os.ReadFile("fuzz/fuzz_test.go.txt")
+	}
+	if err != nil {
+		r.Inconclusive("fuzz template not found: " + err.Error())
+		return
+	}
+	os.WriteFile(filepath.Join(fdir, "fuzz_test.go"), src, 0o644)
+	os.WriteFile(filepath.Join(fdir, "go.mod"), []byte("module c15fuzz\n\ngo 1.22\n\nrequire github.com/ChrisTrenkamp/xsel v0.0.0\n\nreplace github.com/ChrisTrenkamp/xsel => "+repo+"\n"), 0o644)
+	if sum, err := os.ReadFile(filepath.Join(repo, "go.sum")); err == nil {
+		os.WriteFile(filepath.Join(fdir, "go.sum"), sum, 0o644)
+	}
+	execs := Scale(400000)
+	if os.Getenv("VERIF_FUZZ") != "" {
+		if n, err := strconv.Atoi(os.Getenv("VERIF_FUZZ")); err == nil && n > 0 {
+			execs = n
+		}
+	}
+	for _, target := range []string{"FuzzExpr", "FuzzXml", "FuzzJson", "FuzzHtml"} {
+		cmd := exec.Command("go", "test", "-run=^$", "-fuzz=^"+target+"$", fmt.Sprintf("-fuzztime=%dx", execs), "-test.fuzzcachedir="+filepath.Join(fdir, "cache"), ".")
+		cmd.Dir = fdir
+		var out bytes.Buffer
+		cmd.Stdout, cmd.Stderr = &out, &out
+		werr := runWithWatchdog(cmd, 60*time.Minute)
+		text := out.String()
+		r.Eval(execs)
+		r.Tab("fuzz_targets", target, execs)
+		r.Sig("fuzz|"+target, true)
+		if werr == errWatchdog {
+			r.Inconclusive("fuzz target " + target + " hit the watchdog")
+			continue
+		}
+		if werr != nil {
+			if !strings.Contains(text, "--- FAIL") && !strings.Contains(text, "panic:") {
+				r.Inconclusive("go test -fuzz could not run: " + trunc(text))
+				continue
+			}
+			input := ""
+			if files, _ := filepath.Glob(filepath.Join(fdir, "testdata", "fuzz", target, "*")); len(files) > 0 {
+				b, _ := os.ReadFile(files[0])
+				input = string(b)
+			}
+			if len(text) > 1500 {
+				text = text[:1500] + "…"
+			}
+			r.Violate("fuzz/"+target, map[string]any{"what": fmt.Sprintf("coverage-guided fuzzing of %s found a failing input: %s", target, trunc(input)), "go_test_output": text, "corpus_entry": input})
+		}
+	}
 }
